@@ -221,3 +221,21 @@ package reg
 //@   in ~/scheme/reg
 //@   infunc \)\.ManifestPut$
 //@   requires only-what-the-registry-acknowledged: $ret(Do, 1) == nil && $ret(HTTPResponse, 0).StatusCode == 201
+
+// ---- C05: the upload resumes where the registry says it is ----
+// After a chunk the registry reports how much of the blob it holds as "Range: 0-<end>" (some send
+// "bytes=0-<end>"). blobUploadCurBytes returns the number behind the FIRST dash of that header -
+// a function of the header value ($afterFirst, $parseInt10: strings.SplitN / strconv.ParseInt as
+// mathematical functions, specs/extern.spec) - so that 0-0 (one byte held) and 0--1 (nothing
+// held, as some registries print it) mean what they say.
+//@ ghost $rangeHdr string
+//@ func blobUploadCurBytes(resp) (n, err)
+//@   prop C05
+//@   on-call Get: $rangeHdr = result
+//@   ensures the-end-offset-the-registry-reported: err == nil ==> n == $parseInt10($afterFirst($rangeHdr, "-"))
+//@ callsite (net/http.Header).Get(key)
+//@   prop C05
+//@   name Header.Get/upload-progress
+//@   in ~/scheme/reg
+//@   infunc reg\.blobUploadCurBytes$
+//@   requires reads-the-range-header-of-the-response: key == "Range" && recv == caller.resp.Header
